@@ -1,10 +1,10 @@
-import Mixin.Model.Consensus
-import Mixin.Model.ConsensusCodes
+import Mixin.Model.ConsensusChain
+import Mixin.Model.ConsensusChainCodes
 import Mixin.Facts.ExpectedC28
 /-!
 # C28 — consensus operations form a serialized single-transaction chain
 
-Theorems about `Mixin.Model.Consensus` (model of `IsSnapshotBatchable`,
+Theorems about `Mixin.Model.ConsensusChain` (model of `IsSnapshotBatchable`,
 `validateKernelSnapshot`, `validateConsensusTransactionReferences`,
 `WriteConsensusSnapshotWithHack`, `writeConsensusSnapshot`, `readLastConsensusSnapshot`).
 The type codes are a parameter `c : Codes`; the only relation used is `CodesOK c` (no
@@ -12,7 +12,7 @@ consensus class is batchable), proved for the regenerated constants in
 `Facts/ExpectedC28.lean` (`realCodes_ok`).
 -/
 namespace Mixin.C28
-open Mixin.Consensus
+open Mixin.ConsensusChain
 
 /-- no consensus class is batchable -/
 def CodesOK (c : Codes) : Prop := ∀ t, isConsensusType c t = true → isBatchable c t = false
